@@ -74,6 +74,33 @@ def run(ctx):
                 add("c13_expand_ok %s %s %s %s" % (cnat(ct), cnat(L), "[" + "; ".join(cZ(int(v.real)) for v in h[b]) + "]", "[" + "; ".join(cZ(int(v.real)) for v in e[b]) + "]"),
                     "C13/expand/value", "_expand_coefficients(L=%d, coherence_time=%d) = %s for block coefficients %s" % (L, ct, [int(v.real) for v in e[b]], [int(v.real) for v in h[b]]), {"L": L, "ct": ct})
 
+    # every coherence time 1..T_max, several blocks each: sample i carries the coefficient of block i // ct (integer arithmetic reference)
+    for ct in range(1, (257 if quick else 1025)):
+        L = (8 if ct <= 64 else 3) * ct + 1
+        nb = (L + ct - 1) // ct
+        ch = C.FlatFadingChannel("rayleigh", coherence_time=ct, avg_noise_power=0.0)
+        h = torch.complex(torch.arange(1, nb + 1, dtype=torch.float32).reshape(1, nb), torch.zeros(1, nb))
+        e = ch._expand_coefficients(h, L)
+        ctx.count("expand-sweep")
+        want = [i // ct + 1 for i in range(L)]
+        got = [int(v) for v in e[0].real.tolist()] if tuple(e.shape) == (1, L) else None
+        if got != want:
+            bad = [i for i in range(L) if got is None or got[i] != want[i]][:6]
+            ctx.violation("C13/expand/value", "_expand_coefficients(L=%d, coherence_time=%d): samples %s do not carry the coefficient of block i // %d" % (L, ct, bad, ct), {"L": L, "ct": ct})
+            break
+    # and through forward(): generated gains are constant exactly on the blocks [k*ct, (k+1)*ct) for large coherence times too
+    for ct in ([41, 47, 61, 83, 97, 110, 127] if quick else list(range(33, 160))):
+        L = 4 * ct + 3
+        for mk_ in (lambda: C.RayleighFadingChannel(coherence_time=ct, avg_noise_power=0.0), lambda: C.FlatFadingChannel("rician", coherence_time=ct, k_factor=2.0, avg_noise_power=0.0)):
+            y = mk_()(torch.ones(2, L))
+            ctx.count("forward-block-sweep")
+            for b in range(2):
+                g = y[b].reshape(-1)
+                chg = [i for i in range(1, L) if g[i] != g[i - 1]]
+                if chg != [k * ct for k in range(1, (L + ct - 1) // ct)]:
+                    ctx.violation("C13/block-constancy/large-coherence-time", "coherence time %d, length %d: the gain changes at samples %s, block boundaries are %s" % (ct, L, chg[:8], [k * ct for k in range(1, (L + ct - 1) // ct)][:8]),
+                                  {"ct": ct, "L": L})
+                    break
     # ------------------------------------------------------------------ supplied csi and noise: y = h.x + n exactly; shape / dtype
     shapes = [(7,), (1,), (3, 5), (1, 6), (2, 2, 3), (2, 3, 2, 2)]
     for shape in shapes:
